@@ -343,7 +343,10 @@ def run(ctx):
     for i in range(nrec):
         g = Gen(rng, maxdepth=rng.choice([1, 2, 2, 3]), fragment="full")
         try:
-            r = g.recipe()
+            if i < 4 * ctx.pick(8, 40):
+                r = [lambda: g.lazy_family(2), g.region_family, g.root_family, lambda: g.bitstream(False)][i % 4]()
+            else:
+                r = g.recipe()
         except (M.ModelGap, M.MissingKey, M.Unsized):
             continue
         kw = dict(g.kw)
